@@ -85,7 +85,7 @@ func init() {
 			`established by dominating branch outcomes, directly or through a boolean/error validator function. R10.len: every slicing of the untrusted-length ` +
 			`slice SignatureInfo.Hashes needs a dominating comparison of the same bound with len() of that slice. ` +
 			`R10.space: an index is never related to both builds' file lists (a bound check against the other build's container does not protect the use). ` +
-			`NOT decided: nil-dereference and type-assertion panics, non-termination, truncation handling inside io/proto libraries, compressed framing, values passed through channels or slice elements.`,
+			`Sink kinds also include the exit test of a loop comparing with a wire-derived integer that has no upper bound. NOT decided: nil-dereference and type-assertion panics, non-termination, truncation handling inside io/proto libraries, compressed framing, values passed through channels or slice elements.`,
 		Assumptions: []string{
 			"tlc.Container messages are well-formed and no frame declares a length beyond the stream (C10's own preconditions)",
 			"no reflection/unsafe; two distinct variables do not alias unless one was assigned from the other",
